@@ -125,8 +125,6 @@ pub fn check01(runner: &mut Runner, case: &mut ExecCase, st: Option<&mut Stats>)
     } else if matches!(m.out, MOut::Undefined(_) | MOut::StepLimit) {
         return Verdict::Discard("model-undefined");
     }
-    case.budget = 100 * m.trace.steps + 10_000;
-    let r = runner.run(case, &[Engine::Interp]);
     // the model run that mimics the interpreter's known deviation (I2) - and, on the path taken
     // only because of it, the interpreter's reading of negative ldabs/ldind immediates
     let quirk = if m.trace.i2_trigger { Some(model_run(case, addr, Quirks { zx_jmp_imm: true, ld_neg_imm_zx: true }, MODEL_STEPS)) } else { None };
@@ -137,6 +135,11 @@ pub fn check01(runner: &mut Runner, case: &mut ExecCase, st: Option<&mut Stats>)
             return Verdict::Discard("i2-divergence-into-undefined-path");
         }
     }
+    // the path the interpreter takes because of I2 may be much longer than the one the ISA
+    // prescribes: the budget must cover it, or the known deviation shows up as "runs away"
+    let steps = m.trace.steps.max(quirk.as_ref().map(|q| q.trace.steps).unwrap_or(0));
+    case.budget = 100 * steps + 10_000;
+    let r = runner.run(case, &[Engine::Interp]);
     compare_interp_with_model(case, &m, quirk.as_ref(), &r[0])
 }
 
